@@ -188,6 +188,14 @@ func oracleCrash(c *Case, res *Result, liveness bool) []Violation {
 	s0 := m
 	s1 := m.clone()
 	s1.ApplyTxn(c, sub)
+	for _, st := range c.Stores {
+		if st.Name != "ticks" && len(s0[st.Name]) > 0 && len(s1[st.Name]) == 0 {
+			// the subject removes the last item of a store: its count goes to 0 in phase 1, and a store
+			// whose published count is 0 reads as empty whatever its root node holds
+			tag = "/emptied" + tag
+			break
+		}
+	}
 	for _, idx := range sub.Create {
 		if _, ok := s0[c.Stores[idx].Name]; ok {
 			continue
